@@ -173,7 +173,7 @@ func caseKey(c Case) string {
 	sb.WriteString(c.Font)
 	sb.WriteString(c.Hex)
 	for _, e := range c.Edits {
-		fmt.Fprintf(&sb, "|%s,%d,%d,%d,%s", e.Op, e.Off, e.Val, e.Len, e.Hex)
+		fmt.Fprintf(&sb, "|%s,%d,%d,%d,%s,%d", e.Op, e.Off, e.Val, e.Len, e.Hex, e.Rep)
 	}
 	return sb.String()
 }
